@@ -13,7 +13,7 @@ RULE = ("a case is non-trivial when it is a distinct supported section (splice_n
         "lattice of splice_insert (cancel | out x {program,component} x {immediate,timed} x {no break, break auto 0/1}) and of "
         "segmentation_descriptor (cancel | components none/0/1/2 x duration x {not restricted | 8 flag triples} x upid shape "
         "{empty, single, empty MID, MID list} cycling the sub-segment types) is enumerated completely on every run, each "
-        "with pointer_field 0..20 cycling; truncated / bit-flipped sections are fidelity cases (C05)")
+        "with pointer_field 0..254 (every value on every run); truncated / bit-flipped sections are fidelity cases (C05)")
 EXHAUSTIVE = True
 EXHAUSTIVE_NOTE = "the flag lattices of splice_insert and segmentation_descriptor are enumerated completely; field values are boundary + random"
 ASSUMPTIONS = ["bytes.Buffer Next/ReadByte/UnreadByte behave as documented (Model/Scte.v buf)",
